@@ -170,6 +170,15 @@ def build_queue_system(nprod, items, ncons, consumer='get', qcap='CAP', caps=(0,
   return sysm
 
 
+def bvsum(conds):
+  """Number of true conditions as an 8-bit vector (pure QF_BV: no Int-sorted terms may reach the BV solver)."""
+  import z3
+  r = B.BV(0)
+  for c in conds:
+    r = r + z3.If(c, B.BV(1), B.BV(0))
+  return r
+
+
 def c04_ok(enc, sysm, st):
   """Final-state predicate of C04 (no faults): every produced element received exactly once, per producer in order
   within each consumer, every consumer ends with StopIteration carrying all producers' return values."""
@@ -184,10 +193,13 @@ def c04_ok(enc, sysm, st):
   for p in range(nprod):
     for i in range(items[p]):
       v = 16 * p + 1 + i
-      cnt = z3.Sum([z3.If(z3.And(z3.ULT(B.BV(j), st[('loglen', lg)]), tag == 0, val == v), 1, 0) for lg in logs for j, tag, kind, val in entries(lg)])
+      cnt = bvsum([z3.And(z3.ULT(B.BV(j), st[('loglen', lg)]), tag == 0, val == v) for lg in logs for j, tag, kind, val in entries(lg)])
       conj.append(cnt == 1)
   total = sum(items)
-  conj.append(z3.Sum([z3.ZeroExt(8, st[('loglen', lg)]) for lg in logs]) == total + ncons)
+  tot16 = z3.BitVecVal(0, 16)
+  for lg in logs:
+    tot16 = tot16 + z3.ZeroExt(8, st[('loglen', lg)])
+  conj.append(tot16 == z3.BitVecVal(total + ncons, 16))
   full = sum(1 << p for p in range(nprod)) + 16 * nprod
   for lg in logs:
     ln = st[('loglen', lg)]
@@ -328,8 +340,8 @@ def items_sane(enc, sysm, st, conj):
   for p in range(m['nprod']):
     for i in range(m['items'][p]):
       v = 16 * p + 1 + i
-      cnt = z3.Sum([z3.If(z3.And(z3.ULT(B.BV(j), st[('loglen', lg)]), tag == 0, val == v), 1, 0) for lg in logs for j, tag, kind, val in ents[lg]])
-      conj.append(cnt <= 1)
+      cnt = bvsum([z3.And(z3.ULT(B.BV(j), st[('loglen', lg)]), tag == 0, val == v) for lg in logs for j, tag, kind, val in ents[lg]])
+      conj.append(z3.ULE(cnt, B.BV(1)))
   valid = [16 * p + 1 + i for p in range(m['nprod']) for i in range(m['items'][p])]
   for lg in logs:
     ln = st[('loglen', lg)]
@@ -518,7 +530,7 @@ def c13_ok(enc, sysm, st):
   conj = []
   ents = items_sane(enc, sysm, st, conj)['LOG0']
   ln = st[('loglen', 'LOG0')]
-  nitems = z3.Sum([z3.If(z3.And(z3.ULT(B.BV(j), ln), tag == 0), 1, 0) for j, tag, kind, val in ents])
+  nitems = bvsum([z3.And(z3.ULT(B.BV(j), ln), tag == 0) for j, tag, kind, val in ents])
   ns = enc.P['NS'] if 'NS' in enc.P else B.BV(sysm.objects['DQ'].consts['_num_steps'] & 0xFF if isinstance(sysm.objects['DQ'].consts['_num_steps'], int) else 255)
   fails = z3.Or(*[z3.ULE(enc.P[f'FAIL{p}'], B.BV(m['items'][p])) for p in range(m['nprod']) if f'FAIL{p}' in enc.P]) if any(f'FAIL{p}' in enc.P for p in range(m['nprod'])) else z3.BoolVal(False)
   total = m['total']
@@ -604,6 +616,173 @@ def multiplex_threads(sysm, enc, trace, drivers):
     for name, src in drivers.items():
       ns_ = dict(env)
       exec(src, ns_)
+      fns[name] = [v for k, v in ns_.items() if callable(v) and getattr(v, '__code__', None) is not None and v.__code__.co_filename == '<string>'][-1]
+    return fns
+  return make, logs, {}
+
+
+# ------------------------------------------------------------------------------------------------
+# C15: PrefetchedCourierServer._next_batch / _stop_prefetch over the prefetch queue
+# ------------------------------------------------------------------------------------------------
+COURIER_SERVER = 'ml_metrics/_src/chainables/courier_server.py'
+
+CLIENT_LOOP = '''
+def client():
+  # the client loop of courier_utils.async_iterate: ask for batches until a terminal marker arrives
+  while True:
+    batch = SRV._next_batch({bs})
+    LOG0.item(batch)
+    if LOG0_DONE(batch):
+      return
+'''
+
+SHUTDOWN = '''
+def shutdown():
+  SRV._stop_prefetch({fatal})
+'''
+
+
+def build_prefetch_system(items, prefetch, batch, fail=None, stopper=None):
+  """One generator life-cycle: the prefetch thread feeds the queue, the request handler thread serves next-batch
+  requests (batch size `batch`), optionally a third thread calls _stop_prefetch (shutdown / re-initialisation)."""
+  sysm = B.System()
+  path = os.path.join(common.REPO, ITER_UTILS)
+  src = F.load_sources([path, os.path.join(common.REPO, COURIER_SERVER)],
+                       {'IteratorQueue', 'IterableQueue', 'PrefetchedCourierServer', 'CourierServer'}, {'_release_and_notify', 'is_stop_iteration'})
+  queue_spec('q', sysm, 0, prefetch, max(items, 1), None, 0, max_batch_size=3)
+  d = {'n': items, 'base': 1, 'ret': 1, 'fail': None}
+  if fail:
+    sysm.params['FAIL0'] = fail
+    d['fail'] = 'FAIL0'
+  sysm.iters['SRC0'] = d
+  sysm.logs['LOG0'] = items + 3
+  sysm.objects['SRV'] = F.ObjSpec('SRV', 'PrefetchedCourierServer', {'_last_heartbeat': ('int', 0), '_shutdown_requested': ('bool', 0)},
+                                  prims={'_generator_lock': ('lock', 'SRV.G'), '_enqueue_thread': ('thread', 'prefetch')},
+                                  consts={'_generator': '@obj:q', 'address': 'srv'})
+  sysm.locks['SRV.G'] = 'lock'
+  comp = F.Compiler(src, sysm.objects, {'SRC0': 'SRC0'}, {'LOG0': items + 3}, {})
+  sysm.threads.append(comp.compile_thread('prefetch', WORKER.format(src='SRC0')))
+  sysm.thread_ids['prefetch'] = 0
+  # LOG0_DONE(batch): the batch carries a terminal marker
+  comp.sources['']['LOG0_DONE'] = __import__('ast').parse('def LOG0_DONE(b):\n  return BATCH_HAS_MARKER(b)').body[0]
+  sysm.threads.append(comp.compile_thread('client', CLIENT_LOOP.format(bs=batch)))
+  sysm.thread_ids['client'] = 1
+  if stopper is not None:
+    sysm.threads.append(comp.compile_thread('shutdown', SHUTDOWN.format(fatal='True' if stopper == 'fatal' else 'False')))
+    sysm.thread_ids['shutdown'] = 2
+  sysm.meta = {'nprod': 1, 'items': (items,), 'ncons': 1, 'batch': batch, 'prefetch': prefetch, 'stopper': stopper,
+               'encoded_lines': sorted(comp.encoded_lines), 'dropped_lines': sorted(comp.dropped_lines)}
+  return sysm
+
+
+def c15_ok(enc, sysm, st):
+  """Concatenated batches = the generator's elements in order, each once, then exactly one end marker carrying the
+  return value; on a failure the exception comes after ALL elements produced before it; a stop/shutdown ends the
+  stream with an error marker and nothing is delivered twice."""
+  import z3
+  m = sysm.meta
+  n = m['items'][0]
+  conj = []
+  ents = items_sane(enc, sysm, st, conj)['LOG0']
+  ln = st[('loglen', 'LOG0')]
+  conj.append(z3.UGE(ln, 1))
+  nitems = bvsum([z3.And(z3.ULT(B.BV(j), ln), tag == 0) for j, tag, kind, val in ents])
+  fail = enc.P['FAIL0'] if 'FAIL0' in enc.P else B.BV(255)
+  fails = z3.ULE(fail, B.BV(n))
+  for j, tag, kind, val in ents:
+    last = ln == j + 1
+    # in-order prefix: the j-th delivered element is element j
+    conj.append(z3.Implies(z3.And(z3.ULT(B.BV(j), ln), tag == 0), val == j + 1))
+    if m['stopper'] is None:
+      conj.append(z3.Implies(z3.And(last, z3.Not(fails)), z3.And(tag == 1, kind == F.K_STOP, val == 1 + 16, nitems == n)))
+      conj.append(z3.Implies(z3.And(last, fails), z3.And(tag == 2, kind == F.K_USER, fail == nitems)))
+    else:
+      # a stop request may cut the stream short, but then the terminal marker is an error (never a clean end with missing elements)
+      conj.append(z3.Implies(z3.And(last, tag == 1), z3.And(kind == F.K_STOP, nitems == n)))
+      conj.append(z3.Implies(last, tag != 0))
+  for tid in range(len(sysm.threads)):
+    conj.append(st[('died', tid)] != 2)
+  return z3.And(*conj)
+
+
+def c15_ok_py(meta, logs, params):
+  lg = logs['LOG0'].entries
+  n = meta['items'][0]
+  items = [e[2] for e in lg if e[0] == 0]
+  if items != list(range(1, len(items) + 1)):
+    return False, f'delivered elements are not an in-order prefix without repeats: {items}'
+  if not lg or any(e[0] != 0 for e in lg[:-1]) or lg[-1][0] == 0:
+    return False, f'missing or misplaced terminal marker: {lg}'
+  last = lg[-1]
+  fail = params.get('FAIL0', 255)
+  if meta['stopper'] is None:
+    if fail <= n:
+      if not (last[0] == 2 and last[1] == F.K_USER and len(items) == fail):
+        return False, f'generator failed at position {fail}: expected {fail} elements then the exception, got {lg}'
+    elif not (last[0] == 1 and len(items) == n and last[2] == 17):
+      return False, f'expected all {n} elements and one end marker with the return value, got {lg}'
+  elif last[0] == 1 and len(items) != n:
+    return False, f'clean end marker although elements are missing: {lg}'
+  return True, ''
+
+
+class CtlThread:
+  def __init__(self, sched, name):
+    self.s, self.name = sched, name
+  def join(self, timeout=None):
+    self.s.point('join', '', can_proceed=lambda: self.s.state[self.name] == 'finished')
+  def is_alive(self):
+    return self.s.state[self.name] != 'finished'
+
+
+def prefetch_threads(sysm, enc, trace, drivers):
+  from . import bmc_replay as R
+  m = sysm.meta
+  P = trace['params']
+  logs = {'LOG0': PyLog()}
+
+  def make(sched):
+    import sys, types
+    if 'courier' not in sys.modules or not hasattr(sys.modules['courier'], 'Server'):
+      fake = types.ModuleType('courier'); fake.Server = object; fake.Client = object
+      sys.modules['courier'] = fake
+    from ml_metrics._src.chainables import courier_server, lazy_fns
+    q = real_queue(sched, enc, 'q', m['prefetch'], 0, None)
+    srv = object.__new__(courier_server.PrefetchedCourierServer)
+    srv._generator = q
+    srv._generator_lock = R.CtlRLock(sched, 'SRV.G')
+    srv._enqueue_thread = CtlThread(sched, 'prefetch')
+    srv._shutdown_requested = False
+    srv._last_heartbeat = 0.0
+    import threading as _th
+    srv._tx_stats_lock = _th.Lock()
+    srv._tx_stats = (0.0, 0, 0)
+    fail = P.get('FAIL0')
+    d = sysm.iters['SRC0']
+    src = R.ModelIter(sched, 'SRC0', d['n'], d['base'], d['ret'], None if fail in (None, 255) else fail)
+
+    class Srv:      # the request handler sees pickled bytes; the client un-pickles them (as courier_utils does)
+      def _next_batch(self, bs):
+        return lazy_fns.maybe_make(srv._next_batch(bs))
+      def _stop_prefetch(self, fatal=False):
+        return srv._stop_prefetch(fatal)
+
+    class Log(PyLog):
+      def item(self, batch):
+        for x in batch:
+          if isinstance(x, StopIteration):
+            self.stop(x)
+          elif isinstance(x, Exception):
+            self.err(x)
+          else:
+            self.entries.append((0, 0, int(x)))
+    logs['LOG0'] = Log()
+    env = {'q': q, 'SRV': Srv(), 'LOG0': logs['LOG0'], 'SRC0': src,
+           'LOG0_DONE': lambda b: any(isinstance(x, Exception) for x in b)}
+    fns = {}
+    for name, srcode in drivers.items():
+      ns_ = dict(env)
+      exec(srcode, ns_)
       fns[name] = [v for k, v in ns_.items() if callable(v) and getattr(v, '__code__', None) is not None and v.__code__.co_filename == '<string>'][-1]
     return fns
   return make, logs, {}
